@@ -239,8 +239,10 @@ var DissectOracles = map[string]string{
 	"dissect:%{a}:%{b}:%{c}": `^(?P<a>[^:]*):(?P<b>[^:]*):(?P<c>.*)$`,
 	// --ignore-case folds ASCII letters only (documented in pkg/matchers/dissect/case.go): explicit classes,
 	// not (?i), whose Unicode folding would also accept the Kelvin sign for k and the long s for s
-	"dissecti:k=%{v};":             `[kK]=(?P<v>[^;]*);`,
-	"dissecti:ID=%{id} user=%{u};": `[iI][dD]=(?P<id>.*?) [uU][sS][eE][rR]=(?P<u>.*?);`,
+	"dissecti:k=%{v};":                    `[kK]=(?P<v>[^;]*);`,
+	"dissecti:ID=%{id} user=%{u};":        `[iI][dD]=(?P<id>.*?) [uU][sS][eE][rR]=(?P<u>.*?);`,
+	"dissecti:ID=%{Id} user=%{userName};": `[iI][dD]=(?P<Id>.*?) [uU][sS][eE][rR]=(?P<userName>.*?);`,
+	"dissect:%{Method} %{Path}":           `^(?P<Method>[^ ]*) (?P<Path>.*)$`,
 	// literals that overlap themselves (first occurrence = shortest leading token)
 	"dissecti:%{task}==>%{state}": `(?s)^(?P<task>.*?)==>(?P<state>.*)$`,
 	"dissect:%{task}==>%{state}":  `(?s)^(?P<task>.*?)==>(?P<state>.*)$`,
